@@ -90,7 +90,7 @@ PROPS = {
         "rule": "G-net DAGs: 1-4 inputs, 0-3 bias, 0-8 hidden, 1-3 outputs, random topological order independent of ids, extra-link probability 0-0.6, weights in [-5,5] with occasional +-100; built from constructors or through Genesis; "
                 "non-trivial = a bias link moves an output by > 1e-6 and depth >= 2; distinct by (#in, #bias, #hidden, #out, #links, depth)",
         "assumptions": ["every neuron is reachable from a sensor and each ordered pair carries at most one link (as in every feed-forward genome)", "relaxation is run with the smallest positive delta and a budget of #neurons+2 steps; only the value, not the relaxed flag, is asserted"],
-        "expect_classes": {"dag": ["bias link moves an output by more than 1e-6", "several bias nodes", "depth >= 3", "network expressed from a genome", "network built from constructors"]},
+        "expect_classes": {"dag": ["bias link moves an output by more than 1e-6", "several bias nodes", "depth >= 3", "network expressed from a genome", "network built from constructors", "second input vector on the same instances"]},
     },
     "C13": {
         "run": "^TestC13",
